@@ -703,4 +703,29 @@ pub mod verif {
     pub fn drop_mid(chain: Vec<Node>) -> Vec<Node> {
         drop_mid_materialized_tracked(chain).0
     }
+    /// Pass 1 with the decision it reports.
+    #[must_use]
+    pub fn fuse_tracked(chain: Vec<Node>) -> (Vec<Node>, Option<super::OptimizationDecision>) {
+        fuse_stateless_tracked(chain)
+    }
+    /// Pass 2 with the decisions it reports.
+    #[must_use]
+    pub fn reorder_tracked(chain: Vec<Node>) -> (Vec<Node>, Vec<super::OptimizationDecision>) {
+        reorder_value_only_runs_tracked(chain)
+    }
+    /// Pass 3 with the decision it reports.
+    #[must_use]
+    pub fn lift_tracked(chain: Vec<Node>) -> (Vec<Node>, Option<super::OptimizationDecision>) {
+        lift_gbk_then_combine_tracked(chain)
+    }
+    /// Pass 4 with the decision it reports.
+    #[must_use]
+    pub fn drop_mid_tracked(chain: Vec<Node>) -> (Vec<Node>, Option<super::OptimizationDecision>) {
+        drop_mid_materialized_tracked(chain)
+    }
+    /// The partition heuristic.
+    #[must_use]
+    pub fn suggest_partitions(len_hint: Option<usize>) -> Option<usize> {
+        super::suggest_partitions(len_hint)
+    }
 }
